@@ -1068,7 +1068,10 @@ def _exponential_mixture_log_likelihood_components(
         norm_factor = (
             np.log(amplitudes)
             + np.log(lifetimes)
-            + np.log(np.exp(-(t_min - t_step) / lifetimes) - np.exp(-t_max / lifetimes))
+            + (
+                -(t_min - t_step) / lifetimes
+                + np.log1p(-np.exp(-(t_max - t_min + t_step) / lifetimes))
+            )
             + np.log(discretization_factor)
         )
         log_norm_factor = scipy.special.logsumexp(norm_factor, axis=0)
@@ -1076,8 +1079,8 @@ def _exponential_mixture_log_likelihood_components(
         tau_term = 2.0 * np.log(discretization_factor) + np.log(lifetimes)
         return -log_norm_factor + np.log(amplitudes) + tau_term - (t - t_step) / lifetimes
     else:
-        norm_factor = np.log(amplitudes) + np.log(
-            np.exp(-t_min / lifetimes) - np.exp(-t_max / lifetimes)
+        norm_factor = np.log(amplitudes) + (
+            -t_min / lifetimes + np.log1p(-np.exp(-(t_max - t_min) / lifetimes))
         )
         log_norm_factor = scipy.special.logsumexp(norm_factor, axis=0)
         return -log_norm_factor + np.log(amplitudes) - np.log(lifetimes) - t / lifetimes
